@@ -149,7 +149,10 @@ CHECKS['C11'] = dict(
          'slice of a variable comes from the generator of its declared type.',
     note='NOT claimed: equality of get_halton_draws with the radical inverse for every size (only compared concretely for '
          'bases 2,3,5,7, <= 12 points and call histories: those obligations are concrete, not solver-decided); '
-         'accuracy of AS241 itself (published); RNG quality. Floats as reals.',
+         'accuracy of AS241 itself (published); RNG quality. Floats as reals. One known finding (AS241 region test, see '
+         'known_findings.json): reported as KNOWN-FINDING, any other deviation of the transform is still a VIOLATION.',
+    technique=TECH + '; the Halton clause only: concrete comparison with the radical inverse (labelled in the evidence, not '
+              'solver-decided)',
     design='DESIGN.md 1/C11')
 
 CHECKS['C14'] = dict(
